@@ -399,6 +399,38 @@ fn mk_bytes(b: &[u8]) -> Value {
     Value::from_bytes(b.to_vec())
 }
 
+// @verif props=C09,C01 tier=quick cap=900 group=core fns=Value::get_item_opt
+/// Subscript on a HEAP string (the `ValueRepr::String` arm, here a safe string) that holds a two-byte character:
+/// for ANY i64 index the position counts characters, not bytes - `"\u{e9}a"[i]` is `\u{e9}` for i in {0, -2}, `a` for
+/// i in {1, -1} and undefined otherwise.
+#[kani::proof]
+#[kani::unwind(6)]
+#[kani::stub(alloc::fmt::format, crate::verif_common::format_stub)]
+#[kani::stub(alloc::sync::Arc::drop_slow, crate::verif_common::arc_drop_slow_leak)]
+fn c09_index_heap_string_counts_characters() {
+    let idx: i64 = kani::any();
+    let v = Value::from_safe_string(String::from("\u{e9}a"));
+    assert!(matches!(v.0, ValueRepr::String(..)));
+    let key = Value::from(idx);
+    let got = v.get_item_opt(&key);
+    match py_index(2, idx as i128) {
+        Some(i) => {
+            assert!(got.is_some());
+            let want: &[u8] = if i == 0 { "\u{e9}".as_bytes() } else { b"a" };
+            let ok = match got.as_ref().unwrap().0 {
+                ValueRepr::SmallStr(ref s) => s.as_str().as_bytes() == want,
+                ValueRepr::String(ref s, _) => s.as_bytes() == want,
+                _ => false,
+            };
+            assert!(ok);
+        }
+        None => assert!(got.is_none()),
+    }
+    kani::cover!(got.is_some() && idx == -2);
+    kani::cover!(got.is_none() && idx == -3);
+    core::mem::forget((got, v, key));
+}
+
 // @verif-block props=C09,C01 tier=quick cap=900 group=core doc=subscript_v[i]_on_a_string_/_byte_string_of_length_0..=4_with_ANY_i64_index:_Python's_rule_(element_i_mod_len_for_-len<=i<len,_undefined_otherwise),_never_a_panic
 index_harness!(c09_index_str, 4, mk_str); // tier=thorough cap=3600
 index_harness!(c09_index_bytes, 4, mk_bytes);
